@@ -9,7 +9,7 @@ ls -d benign/${PAT}*/ | xargs -P 3 -I{} sh -c '
   prop=$(python3 -c "import json; print(json.load(open(\"$d/meta.json\"))[\"property\"])")
   W=$(mktemp -d /root/mutcopy.XXXXXX)
   git -C /repo archive HEAD src | tar -x -C "$W"
-  if ! ( cd "$W" && git apply "/verif/$d/patch.diff" ) 2>/dev/null; then
+  if ! ( cd "$W" && git apply --include="src/*" "/verif/$d/patch.diff" ) 2>/dev/null; then
     if ! ( cd "$W" && patch -p1 --fuzz=3 -s < "/verif/$d/patch.diff" ) >/dev/null 2>&1; then echo "$id $prop DOES-NOT-APPLY"; rm -rf "$W"; exit 0; fi
   fi
   VP_SRC="$W/src" timeout 1800 ./check "$prop" quick --no-recheck --workers 6 > "$W/log" 2>&1; rc=$?
